@@ -68,10 +68,10 @@ def check(cx):
     if not okm:
         r1.violation('ChannelModes::new_for_channel|shape', 'a new channel\'s modes are not the defaults plus founders/operators = {creator}', loc=fm)
 
-    r2 = cx.rule('R16.2', 'destruction', floor=6, kind='census+equivalence')
+    r2 = cx.rule('R16.2', 'destruction', floor=5, kind='census+equivalence')
     from .C04 import rule_membership_funnel
     from .C06 import rule_channel_deletion
-    rule_membership_funnel(cx, r2)     # every way of leaving goes through remove_user_from_channel
+    rule_membership_funnel(cx, r2, only=('remove_user', 'remove_user_from_channel', 'new_on_user_join'))     # every way of leaving goes through remove_user_from_channel
     rule_channel_deletion(cx, r2)      # which deletes the channel exactly when it became empty and is not preconfigured
 
     r3 = cx.rule('R16.3', 'configured channels', floor=3, kind='shape')
@@ -96,6 +96,30 @@ def check(cx):
             r3.violation('VolatileState::new_from_config|shape', 'a configured channel is not {topic, modes from the entry, rank lists moved to '
                          'default_modes, empty, preconfigured} (loop=%s modes=%s default_modes=%s topic=%s preconfigured=%s users=%s)'
                          % (loops_ok, modes_ok, dm_ok, topic_ok, pre_ok, users_ok), loc=cx.loc(lits[0].node))
+        # aliasing: the value stored as `modes` is the very variable the clean-up emptied the rank lists of (a second copy of the
+        # configured modes would still carry them: the lists then name nicks that are not members)
+        cl = [e for e in wc.events if e.kind == 'call' and e.data['name'] == 'new_from_modes_and_cleanup']
+        r3.instance('stored modes are the cleaned-up variable')
+        fnode = [x for x in lits[0].node.get('fields', []) if isinstance(x, dict) and (x.get('name') == 'modes' or x.get('f') == 'modes')]
+        if not fnode:
+            # field names live in the ADT definition order
+            names = [x['name'] for x in prog.adts[lits[0].data['adt']]['variants'][0]['fields']]
+            fl = lits[0].node.get('fields', [])
+            idxs = [x.get('i', x.get('idx')) for x in fl]
+            for x in fl:
+                i = x.get('i', x.get('idx'))
+                if i is not None and i < len(names) and names[i] == 'modes':
+                    fnode = [x]
+        alias_ok = False
+        if len(cl) == 1 and fnode and cl[0].seq < lits[0].seq:
+            arg = cl[0].node['args'][0]
+            stored = ir.strip(fnode[0]['e'])
+            cleaned = ir.strip(arg['e']) if arg.get('k') == 'Borrow' and arg.get('mut') else None
+            alias_ok = bool(cleaned) and stored.get('k') == 'Var' and cleaned.get('k') == 'Var' and stored.get('v') == cleaned.get('v')
+        if not alias_ok:
+            r3.violation('VolatileState::new_from_config|modes-not-cleaned', 'the modes stored in a configured channel are not the value whose '
+                         'rank lists were moved to default_modes: the channel starts with rank-list entries for nicks that are not members '
+                         '(prefix-addressed messages then reach non-members / abort on absent nicks)', loc=cx.loc(lits[0].node))
         ins = [e for e in wc.events if e.kind == 'local_mut' and e.data['method'] == 'insert']
         if len(ins) != 1 or ins[0].data['args'][0] != field(centry, 'name'):
             r3.violation('VolatileState::new_from_config|name', 'a configured channel is not stored under its configured name', loc=fc)
